@@ -174,7 +174,9 @@ def all_lambdas(node: ast.AST) -> List[ast.Lambda]:
 
 PY_KW = {"lambda", "and", "or", "not", "if", "else", "in", "is", "None", "True", "False", "for", "class", "def", "int"}
 POOL_COLL = ["Jets", "Muons", "Electrons", "Tracks", "EventInfo", "EventDataset", "Select", "Where", "First", "Count"]
-POOL_FUNC = ["sin", "cos", "abs", "sqrt", "max", "min", "len", "sum"]
+POOL_FUNC = ["sin", "cos", "abs", "sqrt", "max", "min", "len", "sum",
+             # names of the math module's constants and everyday physics names: parameters like any other
+             "pi", "tau", "inf", "nan", "mu", "el", "math", "np", "DeltaR", "range"]
 POOL_CPP = ["auto", "result", "this", "i_obj1", "jets1", "double", "std", "tree", "collection_name", "node", "self", "ast"]
 POOL_ARG = ["arg_0", "arg_1", "arg_2", "arg_3", "arg_7", "arg_12"]
 POOL_NS = ["FvNS", "Kind", "Color", "xAOD", "FvNS"]   # names of declared C++ namespaces / enums
